@@ -9,7 +9,7 @@ bounded tier only."""
 from z3 import And, BoolVal
 from specs.ir import IRSpec
 
-FUNCTIONS = [('Definition', 'is_leaf', 'method', [])]
+FUNCTIONS = [('Definition', 'is_leaf', 'method', []), ('Instance', 'is_leaf', 'method', [])]
 
 
 class FlatSpec(IRSpec):
@@ -28,4 +28,17 @@ def post(ctx, spec, h0, s, ekind, args, val):
     return out
 
 
-POSTS = {'Definition.is_leaf': post}
+def post_inst(ctx, spec, h0, s, ekind, args, val):
+    """Instance.is_leaf(): the public form of the same test -- False for an instance without a definition, otherwise the answer of its
+    definition (stated against the lists directly, so the two implementations are tied to one specification)"""
+    c = ctx; h = s.heap; i = args[0][1]; d = h0['_reference'][i]
+    if ekind != 'normal':
+        return [('C09', 'does-not-raise', BoolVal(False))]
+    out = [('C09', 'netlist-untouched', And([h[f_] == h0[f_] for f_ in h0 if f_ in h and not (h[f_] is h0[f_])] or [BoolVal(True)]))]
+    if val is None or val[0] != 'bool':
+        return out + [('C09', 'returns-a-bool', BoolVal(False))]
+    out.append(('C09', 'true-iff-has-a-definition-without-children-and-cables', val[1] == And(d != c.null, c.len(h0['_children'][d]) == 0, c.len(h0['_cables'][d]) == 0)))
+    return out
+
+
+POSTS = {'Definition.is_leaf': post, 'Instance.is_leaf': post_inst}
